@@ -140,3 +140,44 @@ pub fn scan(net: &Net, delta: u128, triples: bool, corrupt: Option<usize>) -> Le
     }
     rep
 }
+
+
+/// Exact disclosure at a fixed position: `sent[e]` is everything one party sent in execution `e`
+/// (same layout in every execution, at most 64 executions); `keys` maps the per-execution bit vector of
+/// a secret bit (bit e = value in execution e) to a description. Returns every (byte, bit) position of
+/// the traffic whose per-execution vector is not constant and equals a key (at most 64 hits per worker).
+pub fn fixed_position_hits<V: Copy + Send + Sync>(sent: &[&[u8]], keys: &std::collections::HashMap<u64, V>) -> Vec<(usize, usize, V)> {
+    let n = sent.len();
+    assert!(n >= 1 && n <= 64);
+    let full: u64 = if n == 64 { u64::MAX } else { (1u64 << n) - 1 };
+    let nbytes = sent[0].len();
+    let nth = crate::runner::threads();
+    let chunk = nbytes.div_ceil(nth).max(1);
+    let parts: Vec<Vec<(usize, usize, V)>> = crate::runner::parallel_for(nth, nth, |t| {
+        let mut found = vec![];
+        let lo = t * chunk;
+        let hi = ((t + 1) * chunk).min(nbytes);
+        for b in lo..hi {
+            let mut v = [0u64; 8];
+            for (e, r) in sent.iter().enumerate() {
+                let byte = r[b];
+                for (i, vi) in v.iter_mut().enumerate() {
+                    *vi |= (((byte >> i) & 1) as u64) << e;
+                }
+            }
+            for (i, vi) in v.iter().enumerate() {
+                if *vi == 0 || *vi == full {
+                    continue; // constant bit
+                }
+                if let Some(h) = keys.get(vi) {
+                    found.push((b, i, *h));
+                    if found.len() > 64 {
+                        return found;
+                    }
+                }
+            }
+        }
+        found
+    });
+    parts.into_iter().flatten().collect()
+}
